@@ -11,6 +11,12 @@
  *   log <p as C99 hex double>      logmath_log(p)                    -> l <L> <ppos> <m> <e>
  *        (m * 2^e is the exact value of the double log(p) * (1/log(base)) that the C code
  *         converts to int; recomputed here with the same libm calls)
+ *   cfg0 <name> <base> <shift>     logmath_init(base, shift, 0): no table (log/exp only; add = add_exact)
+ *                                                                    -> cfg <name> size 0 width 0 shift <s> zero <z>
+ *   cfgx <name> <base> <shift>     two objects, with and without table, for the sweepx/rt ops (harness only)
+ *   sweepx <x> <y> <dx> <dy> <n>   per i: logmath_add_exact(table obj), logmath_add(no-table obj), logmath_add(table obj)
+ *                                                                    -> x <e0> <n0> <t0> <e1> <n1> <t1> ...
+ *   rt <p hex>                     L = logmath_log(p), r = logmath_exp(L)  -> rt <L> <r as C99 hex double>
  *   exp <l>                        logmath_exp(l)                    -> e <k> <same>
  *        (k = exponent handed to pow(), recovered from the result; same = 1 iff the result is
  *         bit-identical to pow(base, (double)k); `e oor 0` when pow() under- or overflowed)
@@ -46,7 +52,7 @@ int main(int argc, char **argv)
 {
     static char line[1 << 12];
     char *w[8];
-    logmath_t *lm = NULL;
+    logmath_t *lm = NULL, *lm0 = NULL;
     if (argc == 4 && !strcmp(argv[1], "dump"))
         return dump(strtod(argv[2], NULL), atoi(argv[3]));
     while (fgets(line, sizeof(line), stdin)) {
@@ -58,8 +64,34 @@ int main(int argc, char **argv)
             if (lm == NULL) { printf("init-failed\n"); fflush(stdout); continue; }
             logmath_get_table_shape(lm, &size, &width, &sh);
             printf("cfg %s size %u width %u shift %u zero %d\n", w[1], size, width, sh, logmath_get_zero(lm));
+        } else if (n == 4 && (!strcmp(w[0], "cfg0") || !strcmp(w[0], "cfgx"))) {
+            int x = !strcmp(w[0], "cfgx");
+            if (lm) logmath_free(lm);
+            if (lm0) logmath_free(lm0);
+            lm0 = NULL;
+            lm = logmath_init(strtod(w[2], NULL), atoi(w[3]), x);
+            if (x) lm0 = logmath_init(strtod(w[2], NULL), atoi(w[3]), 0);
+            if (lm == NULL || (x && lm0 == NULL)) { printf("init-failed\n"); fflush(stdout); continue; }
+            if (x) {
+                uint32 size, width;
+                logmath_get_table_shape(lm, &size, &width, NULL);
+                printf("cfg %s size %u width %u shift %d zero %d\n", w[1], size, width, logmath_get_shift(lm), logmath_get_zero(lm));
+            } else
+                printf("cfg %s size 0 width 0 shift %d zero %d\n", w[1], logmath_get_shift(lm), logmath_get_zero(lm));
         } else if (lm == NULL) {
             printf("no-cfg\n");
+        } else if (n == 6 && !strcmp(w[0], "sweepx") && lm0 != NULL) {
+            long x = atol(w[1]), y = atol(w[2]), dx = atol(w[3]), dy = atol(w[4]), cnt = atol(w[5]), i;
+            printf("x");
+            for (i = 0; i < cnt; i++) {
+                int a = (int)(x + i * dx), b = (int)(y + i * dy);
+                printf(" %d %d %d", logmath_add_exact(lm, a, b), logmath_add(lm0, a, b), logmath_add(lm, a, b));
+            }
+            printf("\n");
+        } else if (n == 2 && !strcmp(w[0], "rt")) {
+            double p = strtod(w[1], NULL);
+            int L = logmath_log(lm, p);
+            printf("rt %d %a\n", L, logmath_exp(lm, L));
         } else if (n == 1 && !strcmp(w[0], "tab")) {
             uint32 size, i;
             uint64_t h = 0xcbf29ce484222325ULL;
